@@ -7,6 +7,8 @@
          may-alias analysis with interprocedural write summaries)
   C02.d  an estimator held in a hyper-parameter is cloned before being fitted
          (frozen table of documented wrappers excepted)
+  C02.e  an inner estimator trained on an alias of the caller's data is built
+         with its copy flag on (or with the caller's own copy flag)
 """
 
 from __future__ import annotations
@@ -27,6 +29,7 @@ RULES = {
     "C02.b": "a write of self.<hyper-parameter> outside __init__/set_params is a temporary override: every path from the write to any exit, exceptional ones included, passes a restore of the saved value",
     "C02.c": "no in-place write reaches an object that may alias a data parameter of a public method (may-alias dataflow + callee write summaries)",
     "C02.d": "the receiver of .fit on a fit path is a clone, not the estimator stored in a hyper-parameter (documented wrappers excepted)",
+    "C02.e": "an inner estimator fitted on an alias of a data parameter is constructed with copy_X/copy True or with the outer estimator's own copy flag, on every consistent combination of branch facts",
 }
 
 PUBLIC_METHODS = (
@@ -540,6 +543,91 @@ def _origin(ctx, fi, recv: ast.AST, at_ast: ast.AST, seen, depth=0) -> Optional[
     return None
 
 
+# ------------------------------------------------------------------ C02.e
+COPY_FLAGS = {"copy_X", "copy_x", "copy"}
+
+
+def _bool_to_ifexp(e: ast.AST) -> ast.AST:
+    """`a and b` -> `b if a else a`, `a or b` -> `a if a else b` (value semantics)"""
+    if isinstance(e, ast.BoolOp) and len(e.values) >= 2:
+        head, rest = e.values[0], e.values[1:]
+        tail = _bool_to_ifexp(ast.BoolOp(op=e.op, values=rest)) if len(rest) > 1 else _bool_to_ifexp(rest[0])
+        if isinstance(e.op, ast.And):
+            return ast.IfExp(test=head, body=tail, orelse=head)
+        return ast.IfExp(test=head, body=head, orelse=tail)
+    if isinstance(e, ast.IfExp):
+        return ast.IfExp(test=e.test, body=_bool_to_ifexp(e.body), orelse=_bool_to_ifexp(e.orelse))
+    return e
+
+
+def check_e(ck, repo):
+    from . import sem
+
+    eff = effects_for(repo)
+    n = 0
+    for fi in sorted(repo.all_functions.values(), key=lambda f: f.qualname):
+        if fi.cls is None or not fi.named_params:
+            continue
+        ctor_sites = []
+        for st in own_nodes(fi.node):
+            if not (isinstance(st, ast.Assign) and len(st.targets) == 1 and isinstance(st.targets[0], ast.Name) and isinstance(st.value, ast.Call)):
+                continue
+            c = st.value
+            tail = c.func.attr if isinstance(c.func, ast.Attribute) else (c.func.id if isinstance(c.func, ast.Name) else "")
+            if not tail[:1].isupper():
+                continue
+            flags = [k for k in c.keywords if k.arg in COPY_FLAGS]
+            if flags:
+                ctor_sites.append((st, st.targets[0].id, flags[0]))
+        if not ctor_sites:
+            continue
+        data_params = [p for p in fi.named_params if p not in ("self", "cls") and p not in NON_DATA]
+        st0 = {p: frozenset({p}) for p in data_params}
+        for cst, var, kw in ctor_sites:
+            fits = [
+                c
+                for c in own_nodes(fi.node)
+                if isinstance(c, ast.Call) and isinstance(c.func, ast.Attribute) and c.func.attr in FIT_METHODS and isinstance(c.func.value, ast.Name) and c.func.value.id == var and c.args
+            ]
+            for fc in fits:
+                n += 1
+                at = sem.stmt_of(fc)
+                data_alts = sem.guarded_values(repo, fi, fc.args[0], at)
+                flag_alts = sem.guarded_values(repo, fi, _bool_to_ifexp(kw.value), cst)
+                bad = None
+                for dc, dv, _ in data_alts:
+                    roots = {r for r in eff.alias(dv, st0, fi) if r in data_params}
+                    if not roots:
+                        continue
+                    for fc_, fv, _ in flag_alts:
+                        conds = frozenset(dc) | frozenset(fc_)
+                        if not sem.consistent(conds):
+                            continue
+                        txt = sem.xt(fv)
+                        ok = (
+                            const_value(fv) is True
+                            or (is_self_attr(fv) and fv.attr in COPY_FLAGS)
+                            or (isinstance(fv, ast.Name) and fv.id in COPY_FLAGS)
+                            or sem.truth_of(conds, txt) is True
+                        )
+                        if not ok:
+                            bad = (sorted(roots)[0], txt, sorted(t if pol else f"not ({t})" for t, pol in conds))
+                            break
+                    if bad:
+                        break
+                label = f"{fi.cls.name}.{fi.name}: {src_of(fc)[:60]} with {kw.arg}={src_of(kw.value)}"
+                if bad is None:
+                    ck.holds("C02.e", fi, cst, f"{label}: wherever the data aliases a data parameter the flag is on or the caller's own")
+                else:
+                    ck.violated(
+                        "C02.e",
+                        fi,
+                        cst,
+                        f"{label}: when {' and '.join(bad[2]) or 'always'}, the inner estimator is fitted on the caller's '{bad[0]}' itself with {kw.arg}={bad[1]}: scikit-learn then rescales/centres the data in place although the outer copy flag asks for a copy",
+                    )
+    return n
+
+
 def run(ck):
     repo = ck.repo
     for k, v in RULES.items():
@@ -548,6 +636,7 @@ def run(ck):
     nb = check_b(ck, repo)
     nc = check_c(ck, repo)
     nd = check_d(ck, repo)
+    ck.extra["copy_flag_sites"] = check_e(ck, repo)
     ck.extra["hyper_parameter_write_sites"] = nb
     ck.extra["clone_sites"] = nd
     from engine import effects as _e
@@ -564,6 +653,7 @@ def run(ck):
     ck.require_count("C02.b", 1, "ConstraintKMeans.max_iter, PiecewiseTreeRegressor.criterion x2 (+ PipelineCache.steps)")
     ck.require_count("C02.c", 48, "data parameters of public methods")
     ck.require_count("C02.d", 7, "clone sites + documented wrappers")
+    ck.require_count("C02.e", 1, "QuantileLinearRegression.fit: inner LinearRegression(copy_X=self.copy_X)")
 
 
 # ---------------------------------------------------------------- self-test
@@ -591,6 +681,9 @@ WITNESSES = [
     {"name": "tsne-mutates-transformer-param", "file": "mlinsights/mlmodel/predictable_tsne.py", "rule": "C02.b", "old": "        self.transformer_ = clone(self.transformer)\n", "new": "        self.transformer.set_params(perplexity=5)\n        self.transformer_ = clone(self.transformer)\n"},
     {"name": "tsdiff-view-of-y-written", "file": "mlinsights/timeseries/preprocessing.py", "rule": "C02.c", "old": "        self.y_ = y[: self.degree].copy()\n", "new": "        self.y_ = numpy.asarray(y[: self.degree])\n"},
     {"name": "permutation-fit-no-return", "file": "mlinsights/mlmodel/sklearn_transform_inv_fct.py", "rule": "C02.a", "old": "        self.permutation_ = perm\n        return self\n", "new": "        self.permutation_ = perm\n"},
+    {"name": "quantile-inner-copy-off-when-aliased", "file": _QR, "rule": "C02.e", "old": "            copy_X=self.copy_X,\n            n_jobs=self.n_jobs,", "new": "            copy_X=self.copy_X if self.fit_intercept else False,\n            n_jobs=self.n_jobs,"},
+    {"name": "quantile-inner-copy-and-intercept", "file": _QR, "rule": "C02.e", "old": "            copy_X=self.copy_X,\n            n_jobs=self.n_jobs,", "new": "            copy_X=self.copy_X and self.fit_intercept,\n            n_jobs=self.n_jobs,"},
+    {"name": "quantile-inner-copy-off", "file": _QR, "rule": "C02.e", "old": "            copy_X=self.copy_X,\n            n_jobs=self.n_jobs,", "new": "            copy_X=False,\n            n_jobs=self.n_jobs,"},
     {"name": "interval-fit-returns-list", "file": _IR, "rule": "C02.a", "old": "            for i in loop\n        )\n\n        return self\n", "new": "            for i in loop\n        )\n\n        return self.estimators_\n"},
 ]
 TWINS = [
@@ -598,6 +691,8 @@ TWINS = [
     {"name": "ptr-guard-is-not-none", "file": _PT, "old": "            if replace:\n                self.criterion = replace\n", "new": "            if replace is not None:\n                self.criterion = replace\n"},
     {"name": "quantile-copy-then-write", "file": _QR, "old": "        W = numpy.ones(X.shape[0]) if sample_weight is None else sample_weight\n", "new": "        W = numpy.ones(X.shape[0]) if sample_weight is None else sample_weight.copy()\n        W *= 1.0\n"},
     {"name": "piecewise-fancy-index-then-write", "file": _PE, "old": "    Xi = X[ind, :]\n    yi = y[ind]\n    sw = sample_weight[ind] if sample_weight is not None else None\n\n    if nb_classes", "new": "    Xi = X[ind, :]\n    yi = y[ind]\n    yi.sort()\n    sw = sample_weight[ind] if sample_weight is not None else None\n\n    if nb_classes"},
+    {"name": "quantile-inner-copy-forced-when-aliased", "file": _QR, "old": "            copy_X=self.copy_X,\n            n_jobs=self.n_jobs,", "new": "            copy_X=self.copy_X if self.fit_intercept else True,\n            n_jobs=self.n_jobs,"},
+    {"name": "quantile-inner-copy-via-local", "file": _QR, "old": "            copy_X=self.copy_X,\n            n_jobs=self.n_jobs,", "new": "            copy_X=getattr(self, \"copy_X\"),\n            n_jobs=self.n_jobs,"},
     {"name": "interval-clone-via-local", "file": _IR, "old": "estimators = [clone(self.estimator) for i in range(self.n_estimators)]", "new": "base = self.estimator\n        estimators = [clone(base) for i in range(self.n_estimators)]"},
 ]
 MIN_WITNESSES = 12
